@@ -55,6 +55,22 @@ def ctx():
         _ctx['strategies'] = {s.shortName: s for s in loader.demultiplexingStrategies}
         loader2 = DemultiplexingStrategyLoader(barcodeParser=_ctx['bp'], indexParser=None, indexFileAlias=None)
         _ctx['strategies_noidx'] = {s.shortName: s for s in loader2.demultiplexingStrategies}
+        # barcode parser with hamming distance 1 expansion (demux.py -hd 1): raw barcode != assigned barcode
+        import singlecellmultiomics.modularDemultiplexer.baseDemultiplexMethods as B
+        _ctx['bp1'] = BarcodeParser(bdir, hammingDistanceExpansion=1, lazyLoad='*')
+        loader3 = DemultiplexingStrategyLoader(barcodeParser=_ctx['bp1'], indexParser=_ctx['ip'],
+                                               indexFileAlias=_ctx['alias'])
+        _ctx['strategies_hd1'] = {s.shortName: s for s in loader3.demultiplexingStrategies}
+        # custom layouts built directly on UmiBarcodeDemuxMethod: barcode first / UMI first
+        for key, bpx in (('strategies', _ctx['bp']), ('strategies_noidx', _ctx['bp']), ('strategies_hd1', _ctx['bp1'])):
+            noidx = key == 'strategies_noidx'
+            for nm, kw in (('CUSTOM_BC0U8', dict(umiStart=8, umiLength=5, barcodeStart=0, barcodeLength=8)),
+                           ('CUSTOM_U0BC3', dict(umiStart=0, umiLength=3, barcodeStart=3, barcodeLength=8))):
+                st = B.UmiBarcodeDemuxMethod(umiRead=0, barcodeRead=0, barcodeFileParser=bpx, barcodeFileAlias='maya_384NLA',
+                                             indexFileParser=None if noidx else _ctx['ip'],
+                                             indexFileAlias=None if noidx else _ctx['alias'], **kw)
+                st.shortName = nm
+                _ctx[key][nm] = st
     return _ctx
 
 
@@ -153,7 +169,7 @@ def do_case(c):
                 'raised': e, 'read_groups': sorted(q.assignedReadGroups)}
     if f == 'chain':              # strategy.demultiplex -> asFastq -> header -> AlignedSegment -> digest -> tags
         x = ctx()
-        st = x['strategies' if c.get('parser', True) else 'strategies_noidx'][c['strategy']]
+        st = x[{'idx': 'strategies', 'noidx': 'strategies_noidx', 'hd1': 'strategies_hd1'}[c.get('ctx') or ('idx' if c.get('parser', True) else 'noidx')]][c['strategy']]
         recs = [FastqRecord(*r) for r in c['records']]
         lib = c.get('library')
         if c.get('target_len'):      # pad the library name so that the first header has exactly this length
@@ -215,8 +231,10 @@ def strategies():
         umi = None
         if getattr(s, 'umiLength', 0) and getattr(s, 'umi_slices', None) is None:
             umi = [s.umiRead, s.umiStart, s.umiLength]
+        import singlecellmultiomics.modularDemultiplexer.baseDemultiplexMethods as B
+        plain = isinstance(s, B.UmiBarcodeDemuxMethod) and type(s).demultiplex is B.UmiBarcodeDemuxMethod.demultiplex
         out[name] = {'barcodes': bcs[::step][:24], 'slices': slices, 'single': 'SINGLE_END' in type(s).__name__,
-                     'cls': type(s).__name__, 'umi': umi}
+                     'cls': type(s).__name__, 'umi': umi, 'plain': bool(plain)}
     return out
 
 
